@@ -23,6 +23,7 @@ func runC17(ctx *core.Ctx) {
 	ctx.Rule("DL1", "budget: the duration given to context.WithTimeout is time.Until(Deadline) - 2*g with g = 100ms or a twentieth of the remaining time when that is larger; that context and g are what the TestScript stores as ctxt and gracePeriod; the foreground exec waits with waitOrStop(ts.ctxt, cmd, ts.gracePeriod)", 4)
 	ctx.Rule("DL2", "escalation in waitOrStop's goroutine: every path sends exactly once on the result channel (none would hang the caller, two would hang the goroutine); the interrupt is sent only after the context is done; the kill only after the kill-delay timer fired and only when the delay is positive; the caller calls Cmd.Wait and then receives exactly once", 5)
 	ctx.Rule("DL5", "an explicit deadline wins: the testing.T entry point overwrites Params.Deadline only on a path where Params.Deadline.IsZero() was true and the test binary reported a deadline; otherwise the user's deadline would be replaced by the (much later) binary timeout and blocked commands would not be stopped at it", 1)
+	ctx.Rule("DL6", "no child left behind at the deadline: in run's clean-up every wait for background commands is dominated by the loop that interrupts them all (C04.I6); the watcher's SIGQUIT is not escalated for background commands, so a process that ignores it is stopped only by this interrupt", 1)
 	ctx.Rule("DL4", "the context is cancelled by the subtest whose atomic decrement of the reference count reaches zero", 1)
 	runT := ctx.Need("DL1", "testscript", "RunT")
 	wos := ctx.Need("DL2", "testscript", "waitOrStop")
@@ -340,6 +341,21 @@ func runC17(ctx *core.Ctx) {
 				}
 			}
 			ctx.Check(len(msgs) == 0 && paths >= 3, "DL2", "testscript.waitOrStop$1#protocol", gor.Pos(), "%d returning paths, each with exactly one send; signal after ctx.Done, kill after the timer and only for a positive delay %s", paths, strings.Join(msgs, "; "))
+			// a command that had already finished when the interrupt was due is not blamed for the deadline
+			doneOK := false
+			g.Instrs(func(i ssa.Instruction) {
+				sd, isSend := i.(*ssa.Send)
+				if !isSend || !isErrc(sd.Chan) || !ssax.IsNil(sd.X) {
+					return
+				}
+				if cmpFact(g.FactsAtInstr(sd), token.EQL, func(v ssa.Value) bool {
+					c, ok := v.(*ssa.Call)
+					return ok && ssax.CalleeName(&c.Call) == "(*os.Process).Signal"
+				}, isGlobalLoad("ErrProcessDone")) {
+					doneOK = true
+				}
+			})
+			ctx.Check(doneOK, "DL2", "testscript.waitOrStop$1#already-done", gor.Pos(), "when the interrupt finds the process already finished (os.ErrProcessDone) the watcher reports nil, so that the command's own exit status decides the line")
 			// timer duration is killDelay
 			okTimer := false
 			for _, c := range g.Calls("time.NewTimer", "time.After", "time.AfterFunc") {
@@ -428,6 +444,66 @@ func runC17(ctx *core.Ctx) {
 			}
 		}
 		ctx.Check(ok, "DL4", "testscript.RunT$closure#cancel", runT.Pos(), "cancel is called exactly by the last subtest to finish")
+		// the count starts at the number of scripts and only ever goes down by one per subtest
+		rg := graph(p, runT)
+		var cell *ssa.Alloc
+		rg.Instrs(func(i ssa.Instruction) {
+			if mc, isMC := i.(*ssa.MakeClosure); isMC {
+				for _, b := range mc.Bindings {
+					if al, isAl := b.(*ssa.Alloc); isAl && al.Type().String() == "*int32" {
+						cell = al
+					}
+				}
+			}
+		})
+		why := ""
+		if cell == nil {
+			why = "no captured int32 counter found in RunT"
+		} else {
+			inits := 0
+			for _, r := range ssax.Referrers(cell) {
+				if st, isSt := r.(*ssa.Store); isSt && st.Addr == ssa.Value(cell) {
+					inits++
+					if !ssax.DerivedFrom(st.Val, func(v ssa.Value) bool {
+						c, isC := v.(*ssa.Call)
+						return isC && isBuiltinCall(c, "len")
+					}, nil) {
+						why = "the counter is not initialised to the number of scripts"
+					}
+				}
+			}
+			if inits != 1 {
+				why = "the counter is assigned " + itoa(inits) + " times in RunT (want once, to the number of scripts, before any subtest starts)"
+			}
+			var all []*ssa.Function
+			var collect func(f *ssa.Function)
+			collect = func(f *ssa.Function) {
+				all = append(all, f)
+				for _, c := range f.AnonFuncs {
+					collect(c)
+				}
+			}
+			collect(runT)
+			for _, f := range all {
+				for _, c := range graph(p, f).Calls("sync/atomic.AddInt32") {
+					if c.Call.Args[0].Type().String() != "*int32" {
+						continue
+					}
+					if d, isK := ssax.ConstInt(c.Call.Args[1]); !isK || d != -1 || f == runT {
+						why = "the counter is changed by something other than a subtest's final decrement (counting up while subtests may already have finished lets an early subtest see zero and cancel the shared deadline context)"
+					}
+				}
+			}
+		}
+		ctx.Check(why == "", "DL4", "testscript.RunT#refcount", runT.Pos(), "the reference count is set once to the number of scripts before any subtest runs and is only ever decremented by one %s", why)
+	}
+	// ---- DL6: the end-of-run clean-up interrupts before it waits, whatever the context says
+	if run := p.Func("testscript", "(*TestScript).run"); run != nil {
+		for _, a := range run.AnonFuncs {
+			if len(graph(p, a).Calls("(*"+tsPkg+".TestScript).waitBackground")) > 0 {
+				cleanupInterruptsFirst(ctx, "DL6", a)
+			}
+		}
 	}
 }
 
